@@ -172,7 +172,26 @@ func buildShadow(l *h.Log, eip150 bool) *shadowLog {
 			pending = -1
 			stack = stack[:0]
 		case h.KStart:
-			if pending < 0 {
+			if pending < 0 && len(stack) > 0 {
+				// the host re-entered the EVM while serving a join point of the top-level frame: at depth 0 the VM
+				// announces such a call like a transaction (Start/End), yet it is a call made on behalf of the open frame
+				a := &attempt{Op: h.CALL, From: e.From, Gas: e.Gas, GasKnown: true, Data: e.Input, DataOK: true, StepSeq: e.Seq, HostCall: true, Depth: 0}
+				if e.Create {
+					a.Op = h.CREATE
+					a.Created = e.To
+				} else {
+					to := e.To
+					a.To = &to
+				}
+				a.Value, _ = uint256.FromBig(e.Value)
+				if a.Value == nil {
+					a.Value = new(uint256.Int)
+				}
+				newAttempt(a)
+				a.Entered, a.EnterSeq = true, e.Seq
+				stack = append(stack, shFrame{idx: a.Index, indexed: true, depth: 1})
+				pending = -1
+			} else if pending < 0 {
 				sh.Problems = append(sh.Problems, fmt.Sprintf("Start at seq %d without a pending top-level attempt", e.Seq))
 			} else {
 				a := sh.Attempts[pending]
